@@ -551,6 +551,61 @@ def run_registry_wrappers(ctx):
                 ctx.violation('wrapper:' + tag, cfg, 'raises:' + type(e).__name__, name=name, message=str(e)[:200])
 
 
+def run_scalar_kinds(ctx):
+    """Scalars beyond Python floats: (a) extended-precision spaces with numpy.longdouble / clongdouble scalars that are not
+    representable in double - the scalar must act with its full precision; (b) operators whose domain and range have
+    different fields: a right scalar acts on the argument (domain field), a left scalar on the value (range field)."""
+    rng = ctx.rng('scalar-kinds')
+    ld = np.longdouble
+    if np.finfo(ld).eps < np.finfo(float).eps:
+        for dt, sc in (('longdouble', ld(1) / ld(3)), ('clongdouble', np.clongdouble(ld(1) / ld(3) + 1j * (ld(2) / ld(7))))):
+            sp = odl.tensor_space(4, dtype=dt)
+            xa = (rng.normal(size=4) + (1j * rng.normal(size=4) if dt == 'clongdouble' else 0)).astype(dt) / ld(3)
+            va = (rng.normal(size=4)).astype(dt) / ld(7)
+            x = sp.element(xa)
+            leaves = [('Identity', odl.IdentityOperator(sp), lambda z: z), ('Multiply', odl.MultiplyOperator(sp.element(va)), lambda z: va * z),
+                      ('Power2', odl.PowerOperator(sp, 2), lambda z: z ** 2)]
+            for (lname, A, ref), (form, mk, rule) in itertools.product(leaves, [
+                    ('s*A', lambda A_: sc * A_, lambda r_, z: sc * r_(z)), ('A*s', lambda A_: A_ * sc, lambda r_, z: r_(sc * z)),
+                    ('A/s', lambda A_: A_ / sc, lambda r_, z: r_(z / sc)), ('-(s*A)', lambda A_: -(sc * A_), lambda r_, z: -(sc * r_(z))),
+                    ('(s*A)*s', lambda A_: (sc * A_) * sc, lambda r_, z: sc * r_(sc * z))]):
+                ctx.ev('reference-interpreter')
+                ctx.case('scalar-kinds;extended;%s;%s' % (dt, form), lname)
+                cfg = '%s;numpy-extended-scalar' % dt
+                try:
+                    got = np.asarray(mk(A)(x))
+                    want = rule(ref, xa)
+                    eps = np.finfo(ld).eps
+                    if not np.all(np.abs(got - want) <= 16 * eps * np.maximum(np.abs(want), np.finfo(ld).tiny)):
+                        ctx.violation('wrapper:' + form, cfg, 'value', leaf=lname, rel=float(np.max(np.abs(got - want) / np.maximum(np.abs(want), 1e-300)) / eps), unit='eps of the space')
+                except Exception as e:
+                    ctx.violation('wrapper:' + form, cfg, 'raises:' + type(e).__name__, leaf=lname, message=str(e)[:200])
+    # (b) mixed fields
+    c3, r3 = odl.cn(3), odl.rn(3)
+    z = c3.element(rng.normal(size=3) + 1j * rng.normal(size=3))
+    xr = r3.element(rng.normal(size=3))
+    cs = 1.5 - 0.5j
+    v = r3.element(rng.normal(size=3))
+    mixed = [('ComplexModulus', odl.ComplexModulus(c3), lambda a: np.abs(a), z, 'c->r'), ('ComplexModulusSquared', odl.ComplexModulusSquared(c3), lambda a: np.abs(a) ** 2, z, 'c->r'),
+             ('RealPart+v', odl.RealPart(c3) + v, lambda a: a.real + np.asarray(v), z, 'c->r'),
+             ('ComplexEmbedding**2', odl.PowerOperator(c3, 2) * odl.ComplexEmbedding(r3), lambda a: (a.astype(complex)) ** 2, xr, 'r->c')]
+    for lname, A, ref, pt, kind in mixed:
+        pa = np.asarray(pt)
+        forms = [('A*s', lambda: A * cs, lambda: ref(cs * pa)), ('A/s', lambda: A / cs, lambda: ref(pa / cs)), ('A@s', lambda: A @ cs, lambda: ref(cs * pa)),
+                 ('(A*2.0)*s', lambda: (A * 2.0) * cs, lambda: ref(2.0 * cs * pa))] if kind == 'c->r' else \
+                [('s*A', lambda: cs * A, lambda: cs * ref(pa)), ('s@A', lambda: cs @ A, lambda: cs * ref(pa)), ('-(s*A)', lambda: -(cs * A), lambda: -cs * ref(pa))]
+        for form, mk, want in forms:
+            ctx.ev('reference-interpreter')
+            ctx.case('scalar-kinds;mixed-field;%s' % form, lname)
+            cfg = 'mixed-fields;%s' % kind
+            try:
+                got = np.asarray(mk()(pt))
+                if not np.allclose(got, want(), rtol=1e-12, atol=1e-12):
+                    ctx.violation('wrapper:' + form, cfg, 'value', leaf=lname)
+            except Exception as e:
+                ctx.violation('wrapper:' + form, cfg, 'raises:' + type(e).__name__, leaf=lname, message=str(e)[:200])
+
+
 def run(ctx):
     ctx.note('rule', 'one case = one expression tree (text form is the key); depth-2 trees: every ordered pair of the %d '
                      'combinators x {linear, nonlinear, functional} leaves x {R, C} x scalar classes; deeper trees seeded; '
@@ -572,6 +627,7 @@ def run(ctx):
     run_random_trees(ctx)
     run_registry_wrappers(ctx)
     if ctx.shard == 0:
+        run_scalar_kinds(ctx)
         run_functional_overloads(ctx)
     cov.disarm()
     n_exec, n_hit, unreached = cov.report()
